@@ -45,7 +45,9 @@ def sign(x):
 BUILTINS = {'sign': sign, 'abs': abs, 'len': len, 'min': min, 'max': max, 'int': int, 'float': float, 'bool': bool, 'str': str,
             'np.sign': sign, 'numpy.sign': sign, 'isinstance': isinstance,
             'set': set, 'enumerate': lambda *a, **k: list(enumerate(*a, **k)), 'tuple': tuple, 'list': list, 'dict': dict,
-            'copy.copy': lambda x: x.copy() if hasattr(x, 'copy') else x}
+            'copy.copy': lambda x: x.copy() if hasattr(x, 'copy') else x,
+            'zip': lambda *a: list(zip(*a)), 'range': lambda *a: list(range(*a)) if all(isinstance(x, int) and abs(x) < 10000 for x in a) else (_ for _ in ()).throw(Unsupported('long range')),
+            'sorted': sorted, 'sum': sum, 'any': any, 'all': all, 'frozenset': frozenset, 'reversed': lambda x: list(reversed(x))}
 
 CMP = {ast.Eq: lambda a, b: a == b, ast.NotEq: lambda a, b: a != b, ast.Lt: lambda a, b: a < b, ast.LtE: lambda a, b: a <= b,
        ast.Gt: lambda a, b: a > b, ast.GtE: lambda a, b: a >= b, ast.In: lambda a, b: a in b, ast.NotIn: lambda a, b: a not in b,
